@@ -452,12 +452,21 @@ def run(ctx):
             try:
                 for step in range(rng.randint(3, 16)):
                     j = rng.randrange(nw)
-                    kind = rng.choice(['uint', 'uint', 'int', 'bool', 'bin', 'bytes', 'skip', 'drop-and-restart'])
+                    kind = rng.choice(['uint', 'uint', 'int', 'bool', 'bin', 'bytes', 'skip', 'drop-and-restart', 'set_uint', 'set_uint'])
+                    if kind == 'set_uint' and len(ms[j]) < 2:
+                        kind = 'uint'
                     if kind == 'drop-and-restart':
                         # a writer abandoned with fields in it; its successor starts empty
                         ws[j] = None
                         ws[j] = get_bit_writer()
                         ms[j] = ''
+                    elif kind == 'set_uint':
+                        # a field written earlier is overwritten in place (what the encoder does with the length fields)
+                        n = rng.randint(1, min(24, len(ms[j])))
+                        at = rng.randrange(len(ms[j]) - n + 1)
+                        v = rng.getrandbits(n)
+                        ws[j].set_uint(v, n, at)
+                        ms[j] = ms[j][:at] + ubits(v, n) + ms[j][at + n:]
                     elif kind == 'uint':
                         n = rng.randint(1, 40)
                         v = rng.getrandbits(n)
